@@ -736,6 +736,17 @@ func runC13(rc *RunCtx) {
 				}
 			}
 			step(&ct.MsgDisableAttester{From: am, Attester: AttesterPool[9].Spell(0)}, "disable-unknown")
+			// an identifier that is a proper string prefix of an enabled key's spelling names a different entry
+			pre := AttesterPool[keys[0]].Spell(keys[0] % 4)[:42]
+			step(&ct.MsgDisableAttester{From: am, Attester: pre}, "disable-prefix-of-enabled")
+			if e != nil || true {
+				en := mk()
+				if en != nil {
+					r1 := en.Exec(Tx{Msgs: msgs1(&ct.MsgEnableAttester{From: am, Attester: pre}), Note: "C13 enable a prefix-identifier"})
+					r2 := en.Exec(Tx{Msgs: msgs1(&ct.MsgDisableAttester{From: am, Attester: pre}), Note: "C13 disable the prefix-identifier again"})
+					rc.Cov.Cell("C13_transitions", fmt.Sprintf("prefix-identifier/enable=%v/disable=%v", r1.OK, r2.OK))
+				}
+			}
 			for nt := 0; nt <= len(keys)+2; nt++ {
 				step(&ct.MsgUpdateSignatureThreshold{From: am, Amount: uint32(nt)}, "set-threshold")
 			}
